@@ -345,11 +345,19 @@ impl Driver {
             }
             Op::Mine { n, ts } => {
                 if ok {
-                    for _ in 0..*n {
-                        self.chain.push(vec![Op::Mine { n: 1, ts: *ts }]);
-                        self.chain_resp.push(vec![resp.clone()]);
+                    for i in 0..*n {
+                        // signed transactions parked in the open block (it had no executed transaction,
+                        // or mining would have been refused) belong to the first mined block
+                        let mut ops = if i == 0 { std::mem::take(&mut self.cur) } else { Vec::new() };
+                        let mut rs = if i == 0 { std::mem::take(&mut self.cur_resp) } else { Vec::new() };
+                        ops.push(Op::Mine { n: 1, ts: *ts });
+                        rs.push(resp.clone());
+                        self.chain.push(ops);
+                        self.chain_resp.push(rs);
                         self.height += 1;
                     }
+                    self.ntx = 0;
+                    self.open = None;
                     self.max_ever = self.max_ever.max(self.height);
                 }
             }
